@@ -225,6 +225,7 @@ def _simple_arg(e):
 
 class Helper:
     closure = False
+    generator = False
 
     def __init__(self, module, node, cls, static):
         self.module, self.node, self.cls, self.static = module, node, cls, static
@@ -312,11 +313,14 @@ def find_helpers(repo):
         if not body or len(list(ast.walk(node))) > 1500 or sum(1 for n in ast.walk(node) if isinstance(n, ast.stmt)) > MAX_BODY:
             continue
         bad = False
+        is_gen = any(isinstance(n, (ast.Yield, ast.YieldFrom)) for n in ast.walk(node))
+        if is_gen and not generator_helper_ok(node):
+            continue
         for n in ast.walk(node):
             if n is node:
                 continue
-            if isinstance(n, (ast.Yield, ast.YieldFrom, ast.Await, ast.Global, ast.Nonlocal, ast.FunctionDef,
-                              ast.AsyncFunctionDef, ast.ClassDef, ast.NamedExpr)):
+            if isinstance(n, (ast.Await, ast.Global, ast.Nonlocal, ast.FunctionDef,
+                              ast.AsyncFunctionDef, ast.ClassDef, ast.NamedExpr)) or (isinstance(n, (ast.Yield, ast.YieldFrom)) and not is_gen):
                 bad = True
             elif isinstance(n, ast.Name) and n.id in ('super', '__class__', 'locals', 'vars', 'globals', 'eval', 'exec'):
                 bad = True
@@ -333,7 +337,24 @@ def find_helpers(repo):
         if cls is not None and not static and not a.args and not a.posonlyargs:
             continue
         helpers[name] = Helper(module, node, cls, static)
+        helpers[name].generator = is_gen
     return helpers
+
+
+def generator_helper_ok(node):
+    """a generator whose only yields are statements ``yield <expr>`` and that has no return value"""
+    ys = [n for n in ast.walk(node) if isinstance(n, (ast.Yield, ast.YieldFrom))]
+    if not ys or any(isinstance(n, ast.YieldFrom) for n in ys):
+        return False
+    stmt_yields = {id(n.value) for n in ast.walk(node) if isinstance(n, ast.Expr) and isinstance(n.value, ast.Yield)}
+    if any(id(y) not in stmt_yields for y in ys):
+        return False
+    if any(isinstance(n, ast.Return) for n in ast.walk(node)):
+        return False
+    for n in ast.walk(node):
+        if n is not node and isinstance(n, (ast.FunctionDef, ast.AsyncFunctionDef, ast.ClassDef, ast.Lambda, ast.Global, ast.Nonlocal, ast.Try, ast.With)):
+            return False
+    return True
 
 
 class _Site:
@@ -414,7 +435,7 @@ class Inliner:
             def visit_Call(self, n):
                 self.generic_visit(n)
                 r = inl.resolve(n)
-                if r is None:
+                if r is None or r[0].generator:
                     return n
                 h, recv = r
                 expr = expression_helper(h)
@@ -590,10 +611,19 @@ class Inliner:
             return [s]
         if depth >= MAX_DEPTH:
             return [s]
+        if isinstance(s, ast.For) and isinstance(s.iter, ast.Call):
+            r = self.resolve(s.iter)
+            if r is not None and r[0].generator:
+                try:
+                    out = self.expand_generator_loop(s, r[0], r[1])
+                except NotInlinable:
+                    return [s]
+                self.expanded.append((self.cur.id, r[0].name, getattr(s, 'lineno', 0)))
+                return self.block(out, depth + 1)
         exprs = self.exprs_of(s)
         if not exprs:
             return [s]
-        site = _Site(lambda c: self.resolve(c) is not None)
+        site = _Site(lambda c: self.resolve(c) is not None and not self.resolve(c)[0].generator)
         for e in exprs:
             site.scan(e)
             if site.found is not None or not site.pure:
@@ -638,6 +668,91 @@ class Inliner:
         if isinstance(s, ast.With):
             return [s.items[0].context_expr]
         return []
+
+    # ------------------------------------------------------------------
+    def expand_generator_loop(self, loop, h, recv):
+        """``for T in self.g(args): BODY``  ->  the body of g with every ``yield E`` replaced by
+        ``T = E; BODY``.  Only when BODY cannot leave the loop early other than by return / raise
+        (a break / continue would mean something else inside g's own loops)."""
+        if loop.orelse:
+            raise NotInlinable('for ... else')
+        for st in loop.body:
+            for n in ast.walk(st):
+                if isinstance(n, (ast.Break, ast.Continue)) and not _inside_inner_loop(loop.body, n):
+                    raise NotInlinable('break / continue in the consuming loop')
+        call = loop.iter
+        fake = ast.Expr(value=call)
+        ast.copy_location(fake, loop)
+        saved = h.generator
+        # reuse the parameter binding / renaming of expand(): expand the call as a statement whose
+        # "returns" do not exist; then substitute the yields
+        k = next(self.counter)
+        node = h.node
+        body = node.body
+        if body and isinstance(body[0], ast.Expr) and isinstance(body[0].value, ast.Constant) and isinstance(body[0].value.value, str):
+            body = body[1:]
+        body = copy.deepcopy(body)
+        a = node.args
+        if a.kwarg is not None or a.kwonlyargs:
+            raise NotInlinable('generator signature')
+        params = [x.arg for x in a.posonlyargs + a.args]
+        pos = list(call.args)
+        if recv is not None:
+            pos = [recv] + pos
+        elif h.cls is not None and not h.static:
+            raise NotInlinable('unbound method call')
+        if len(pos) > len(params) or call.keywords:
+            raise NotInlinable('arguments')
+        defaults = dict(zip(params[len(params) - len(a.defaults):], a.defaults))
+        bound = dict(zip(params, pos))
+        for p_ in params:
+            if p_ not in bound:
+                if p_ not in defaults:
+                    raise NotInlinable('missing argument')
+                bound[p_] = copy.deepcopy(defaults[p_])
+        locals_h = _assigned(node) | set(params)
+        free = (_names(node, (ast.Load,)) - locals_h) - _comp_locals(node)
+        if h.module != self.cur.module and not self._same_globals(free, h.module):
+            raise NotInlinable('module globals differ')
+        if free & self.caller_locals:
+            raise NotInlinable('caller local shadows a global used by the generator')
+        assigned_h = _assigned(node)
+        mapping, binds = {}, []
+        for p_ in params:
+            arg = bound[p_]
+            if p_ not in assigned_h and _simple_arg(arg):
+                mapping[p_] = arg
+            else:
+                new = self.fresh(p_, k)
+                mapping[p_] = new
+                binds.append(ast.copy_location(ast.Assign(targets=[ast.Name(id=new, ctx=ast.Store())], value=arg), call))
+        for n_ in sorted(locals_h - set(mapping)):
+            mapping[n_] = self.fresh(n_, k)
+        body = [_Rename(mapping).visit(x) for x in body]
+        for x in body:
+            for n_ in ast.walk(x):
+                if not hasattr(n_, '_inl'):
+                    n_._inl = h.name
+        target, consumer = loop.target, loop.body
+
+        class Y(ast.NodeTransformer):
+            def visit_Expr(self_, st):
+                if isinstance(st.value, ast.Yield):
+                    v = st.value.value if st.value.value is not None else ast.Constant(value=None)
+                    asg = ast.Assign(targets=[copy.deepcopy(target)], value=v)
+                    ast.copy_location(asg, st)
+                    return [asg] + copy.deepcopy(consumer)
+                return st
+        out = []
+        for x in body:
+            r_ = Y().visit(x)
+            out.extend(r_ if isinstance(r_, list) else [r_])
+        self.caller_names |= set(v for v in mapping.values() if isinstance(v, str))
+        self.caller_locals |= set(v for v in mapping.values() if isinstance(v, str))
+        res = binds + out
+        for x in res:
+            ast.fix_missing_locations(x)
+        return res
 
     # ------------------------------------------------------------------
     def expand(self, s, call, h, recv):
@@ -799,6 +914,15 @@ def _module_bindings(tree):
         elif isinstance(n, (ast.FunctionDef, ast.ClassDef)):
             out[n.name] = None          # defined here: not the same object elsewhere
     return out
+
+
+def _inside_inner_loop(stmts, node):
+    """is ``node`` (a break / continue) inside a loop nested in ``stmts``?"""
+    for st in stmts:
+        for n in ast.walk(st):
+            if isinstance(n, (ast.For, ast.While)) and any(x is node for x in ast.walk(n)):
+                return True
+    return False
 
 
 def _stmts_contain_return(stmts):
